@@ -12,6 +12,7 @@ import Sqfs.Proofs.EncDirIndex
 import Sqfs.Proofs.EncTables
 import Sqfs.Proofs.EncMetaPos
 import Sqfs.Proofs.EncXattr
+import Sqfs.Proofs.EncXattrRec
 import Sqfs.Proofs.EncTree
 import Sqfs.Proofs.PackContent2
 namespace Sqfs.C01
@@ -251,6 +252,28 @@ example :
       (flushKv id w).1.drop 27 = encKey k2 true ++ encValueOol 5 ∧
       readSet ⟨(flushKv id w).1, encDescs (flushKv id w).2, 2, fun r => some r⟩ 1 = .ok [(k1, []), (k2, v)] :=
   ⟨_, _, rfl, by decide, by decide, by decide⟩
+
+/-- **Which index `sqfs_xattr_writer_end` hands out** (set dedup, sorting).  With the blocks recorded so far lying in
+front of `kv_start` (true from the empty writer on, and re-established here): an empty set gets `0xFFFFFFFF`; a
+non-empty set gets the index of a block whose pairs are exactly the set's (key index, value index) pairs, sorted — a new
+block or an existing equal one (equal sets are stored once) —, no earlier block changes, keys and values are untouched.
+Together with `xattr_roundtrip` (`setOf j` = those pairs with the interned strings put back): the index stored in an
+inode reads back as the set recorded for it. -/
+theorem xattr_record_index (w : XWriter) (hk : w.kvStart ≤ w.pairs.length) (hb : ∀ b ∈ w.blocks, b.1 + b.2 ≤ w.kvStart) :
+    (w.pairs.length = w.kvStart → endSet w = (w, NONE32))
+    ∧ (w.kvStart < w.pairs.length →
+        (endSet w).2 < (endSet w).1.blocks.length
+        ∧ blockPairs (endSet w).1.pairs ((endSet w).1.blocks.getD (endSet w).2 (0, 0)) = sortPairs (w.pairs.drop w.kvStart)
+        ∧ (∀ i, i < w.blocks.length → (endSet w).1.blocks.getD i (0, 0) = w.blocks.getD i (0, 0)
+              ∧ blockPairs (endSet w).1.pairs (w.blocks.getD i (0, 0)) = blockPairs w.pairs (w.blocks.getD i (0, 0)))
+        ∧ (∀ b ∈ (endSet w).1.blocks, b.1 + b.2 ≤ (endSet w).1.pairs.length)
+        ∧ (endSet w).1.keys = w.keys ∧ (endSet w).1.values = w.values) :=
+  endSet_spec w hk hb
+
+-- the same two pairs added in the other order: sorted, found equal to block 0, stored once
+example : (endSet { keys := [[1], [2]], values := [([7], 2), ([8], 2)], pairs := [(0, 0), (1, 1), (1, 1), (0, 0)], kvStart := 2,
+    blocks := [(0, 2)] }) = ({ keys := [[1], [2]], values := [([7], 2), ([8], 2)], pairs := [(0, 0), (1, 1)], kvStart := 2,
+    blocks := [(0, 2)] }, 0) := by decide
 
 /-- **Index safety of `locations[]`** in the (repaired) `write_id_table`: every store has an index below the number
 of slots `alloc_location_table` provided — for every number of sets, multiples of 512 included, and every block
